@@ -3,7 +3,7 @@
 
 use crate::ops::*;
 use crate::pairs::PairCase;
-use crate::tp::ALL_TYPES;
+use crate::tp::FUZZ_TYPES;
 
 pub struct Cur<'a> {
     d: &'a [u8],
@@ -208,7 +208,7 @@ pub fn op(c: &mut Cur, two_maps: bool) -> Op {
 
 pub fn decode_case(data: &[u8], two_maps: bool, max_ops: usize) -> Case {
     let mut c = Cur::new(data);
-    let ptype = ALL_TYPES[(c.u8() % 14) as usize].to_string();
+    let ptype = FUZZ_TYPES[(c.u8() % 5) as usize].to_string();
     let nu = 2 + c.below(12) as usize;
     let usteps = (0..nu).map(|_| ustep(&mut c)).collect();
     let mut ops = Vec::new();
